@@ -503,6 +503,42 @@ func c15(x *mon.Ctx) {
 			x.Note("provider-history", fmt.Sprint(seq), false, false, prob == "")
 		}
 	}
+	// the program has replaced flag.CommandLine after start-up (the pflag / cobra idiom): the library's own flag keeps its value,
+	// and the fallback still tries the device instead of crashing
+	{
+		_ = flag.Set("tdx_guest_device_path", fake)
+		old := flag.CommandLine
+		flag.CommandLine = flag.NewFlagSet("replaced-by-the-program", flag.ContinueOnError)
+		p := &scriptProvider{supported: errors.New("configfs not available"), quote: valid, err: sentinel}
+		var rd [64]byte
+		var got []byte
+		var err error
+		pv, st := mon.Guard(func() { got, err = client.GetRawQuote(p, rd) })
+		var pv2 string
+		if pv == "" {
+			pv2, _ = mon.Guard(func() {
+				if d, e := client.OpenDevice(); e == nil && d != nil {
+					_ = d.Close()
+				}
+			})
+		}
+		flag.CommandLine = old
+		prob := ""
+		switch {
+		case pv != "":
+			prob = "with flag.CommandLine replaced by the program, GetRawQuote (unsupported provider, device fallback) panics: " + pv + "\n" + st
+		case pv2 != "":
+			prob = "with flag.CommandLine replaced by the program, OpenDevice panics: " + pv2
+		case err == nil || got != nil:
+			prob = fmt.Sprintf("no usable device, yet %d bytes and err=%v were returned", len(got), err)
+		case p.calls != 0:
+			prob = "an unsupported provider was asked for a quote"
+		}
+		if prob != "" {
+			x.Violation("provider-unsupported", "flag-commandline-replaced", prob, "none", "flag-commandline-replaced")
+		}
+		x.Note("provider-unsupported", "flag-commandline-replaced", false, false, prob == "")
+	}
 	_ = flag.Set("tdx_guest_device_path", "default")
 	// unsupported kinds of quote provider
 	for name, qp := range map[string]any{"nil": nil, "string": "x", "int": 5} {
@@ -518,7 +554,7 @@ func c15(x *mon.Ctx) {
 	// ---- the real LinuxDevice (ioctl path) on a regular file, with the kernel's answers injected by strace
 	realDevice(x, fake)
 	x.Require("provider-supported", 4, 2, 6)
-	x.Require("provider-unsupported", 0, 0, 2)
+	x.Require("provider-unsupported", 0, 0, 3)
 	_ = world.Epoch
 }
 
